@@ -232,6 +232,9 @@ def try_panic_on_binary(binary, text, exts):
     """Candidate files for each extension routed to the normaliser; True if one crashes/hangs."""
     t = text.encode('latin1')
     cands = [t, t + b'\n', b'x = 1\n' + t + b'\n', t + b'\nrest\n', t + b' (y)\n', t + b'> (y)\n', t + b'>\n', t + b'>\n\nrest\n']
+    # a text that the grammar only takes for a comment once it is closed: the same text, closed later on
+    # (the panic must then come from the first part: the closing delimiter is found in it already)
+    cands += [t + b' x -->\n', b'<a>' + t + b' x --></a>\n', t + b' x */\n', t + b' x */ y\n']
     for ext in exts:
         for c in cands:
             r = run_scan(binary, {'f.' + ext: c}, ['**'], extra_args=['list'])
